@@ -266,6 +266,10 @@ Fixpoint ru_dec_loop (fuel : nat) (b : Z) : list Z :=
 Definition ru_display_dec (a : Z) : list Z :=
   (if a =? 0 then [48] else []) ++ rev (ru_dec_loop (S (Z.to_nat (Z.log2 a))) a).    (* for (i--; i >= 0; i--) out << result[i] *)
 
+(* the same loop with the buffer the source declares: at most `buf` digits are collected (i < int(sizeof(result))) *)
+Definition ru_display_dec_buf (buf : nat) (a : Z) : list Z :=
+  (if a =? 0 then [48] else []) ++ rev (ru_dec_loop buf a).
+
 (* display_hex: High then Low, each limb as setw(16) setfill('0') in hex: n digits, most significant first *)
 Fixpoint hex_fixed (ndigits : nat) (a : Z) : list Z :=
   match ndigits with
@@ -542,6 +546,7 @@ Definition x_elt_rt (bal word : bool) (lo hi p z : Z) (tail : list Z) :=
   let t := x_elt_write bal p z in
   (t, if word then x_elt_read_word bal lo hi p (t ++ tail) else x_elt_read bal p (t ++ tail)).
 Definition x_ru_write (k : nat) (hex : bool) (a : Z) := ru_write k hex a.
+Definition x_ru_write_buf (buf : nat) (a : Z) := ru_display_dec_buf buf a.
 Definition x_ru_read (k : nat) (hex : bool) (l : list Z) := res3 (ru_read k hex (from_chars l)).
 Definition x_ru_rt (k : nat) (hex : bool) (a : Z) (tail : list Z) :=
   let t := ru_write k hex a in (t, x_ru_read k hex (t ++ tail)).
